@@ -2,6 +2,7 @@ CONSTANTS MaxEntries = 4
  Allowances = {3}
  Budget = 12
  Canonical = TRUE
+ Flaw_SyntheticCaseOnErrorsOnly = FALSE
  Emit = TRUE
 SPECIFICATION Spec
 INVARIANTS CountsOK VerdictOK LoopShape StopMeansPass EmitCase
